@@ -5,13 +5,14 @@
     needed the hypothesis [sp_laws K] is stated (it holds for the executed instance: spq_laws).
 
     Not proved here (see the evidence, uncovered_clauses): third-order agreement of the two schemes
-    (asymptotic); that a spline space of degree >= 2 reproduces omega r^2/2 (the rigid-rotation
-    theorems take d_r phi = omega r, d_theta phi = 0 as facts about the evaluator; tested exactly).
+    (asymptotic); rigid rotation from the coefficients of omega r^2/2 is proved for the general
+    path (third part); for the uniform-cubic path it rests on the evaluator facts d_r phi = omega r,
+    d_theta phi = 0 (tested exactly).
     Refuted: termination of the implicit iteration for arbitrary potentials
     (pol_impl_terminates_refuted). *)
 From Coq Require Import List Arith ZArith QArith Qcanon Bool.
 Import ListNotations.
-From PGV Require Import SplineModel SplineTheory SplineQc InterpModel InterpTheory PolAdvModel PolAdvTheory PolAdvConst PolAdvQc.
+From PGV Require Import Sums SplineModel SplineTheory SplineQc InterpModel InterpTheory MarsdenTheory PolAdvModel PolAdvTheory PolAdvConst PolAdvQuad PolAdvQc.
 
 (** both pairs of evaluation routines the wrappers dispatch to satisfy "entry points agree": a
     successful cross evaluation is the table of the scalar evaluations at the nodes *)
@@ -474,6 +475,114 @@ Theorem pol_mod_2pi_range_executed :
 Proof. exact (@polq_mod_range). Qed.
 Print Assumptions pol_mod_2pi_range_executed.
 
+
+(* ------------------------------------------------------------------------------------------ *)
+(** * third part: omega r^2/2 from its coefficients (PolAdvQuad.v, on MarsdenTheory.v of C08) *)
+
+(** Marsden-type identity for the derivative routine: on every non-empty span, with the coefficients xi_j^(2) of x^2 (degree p = S p' >= 2), sum_j xi_j * nu_basis_funs_1st_der(x)[j] = 2x for every x (summation by parts + Marsden at degree p-1) *)
+Theorem pol_square_derivative_identity :
+  forall (F : Type) (K : sp_ops F),
+       sp_laws K ->
+       forall (knots : list F) (s p' : nat),
+       sp_sorted F K knots ->
+       sp_span_ok F K knots s ->
+       (S p' <= s)%nat ->
+       (1 <= p')%nat ->
+       forall x : F,
+       sumr F (sp0 K) (spadd K) 0 (S (S p'))
+         (fun j : nat => spmul K (ip_mono_coeff F K knots (S p') 2 (s - S p' + j)) (nth j (sp_ders_raw F K knots (S p') x s) (sp0 K))) = 
+       spadd K x x.
+Proof. exact (@pol_quad_deriv). Qed.
+Print Assumptions pol_square_derivative_identity.
+
+(** phi = omega r^2/2 in a general spline space (every theta row of the coefficient array = (omega/2) xi^(2), theta degree >= 1, radial degree >= 2): on the closed domain the (0,1) evaluation returns omega*r and the (1,0) evaluation returns 0 *)
+Theorem pol_quad_potential_derivatives :
+  forall (F : Type) (K : sp_ops F),
+       sp_laws K ->
+       forall (kq : list F) (dq : nat) (kr : list F) (dr' : nat) (omega : F) (c : list (list F)),
+       pol_space_ok F K kq dq ->
+       pol_space_ok F K kr (S dr') ->
+       (1 <= dq)%nat ->
+       (1 <= dr')%nat ->
+       pol_quad_coeffs F K kq dq kr (S dr') omega c ->
+       forall x y : F,
+       pol_in_dom F K kq dq x ->
+       pol_in_dom F K kr (S dr') y ->
+       sp_nu_eval_2d_scalar F K x y kq dq kr (S dr') c 0 1 = SpOk (spmul K omega y) /\
+       sp_nu_eval_2d_scalar F K x y kq dq kr (S dr') c 1 0 = SpOk (sp0 K).
+Proof. exact (@pol_quad_scalar). Qed.
+Print Assumptions pol_quad_potential_derivatives.
+
+(** rigid rotation from the coefficient condition, explicit scheme, general path: feet (theta_i - omega dt/B0 mod 2 pi, r_j), f = spline of f there; no hypothesis on the evaluator is left *)
+Theorem pol_rigid_rotation_expl_from_coeffs :
+  forall (F : Type) (K : sp_ops F),
+       sp_laws K ->
+       forall (feq : F -> F -> F) (pi_ dt v B0 : F) (nul : bool) (rPts qPts kq : list F) (dq : nat) (kr : list F) (dr' : nat) 
+         (cphi : list (list F)) (pol : pol_spl F) (omega : F),
+       sp_trunc_ok F K ->
+       speqb K B0 (sp0 K) = false ->
+       sp_lt K (sp0 K) pi_ ->
+       rPts <> [] ->
+       (forall j : nat,
+        (j < pol_nr F rPts)%nat ->
+        speqb K (nth j rPts (sp0 K)) (sp0 K) = false /\ pol_inside F K (hd (sp0 K) rPts) (last rPts (sp0 K)) (nth j rPts (sp0 K)) = true) ->
+       pol_space_ok F K kq dq ->
+       pol_space_ok F K kr (S dr') ->
+       (1 <= dq)%nat ->
+       (1 <= dr')%nat ->
+       sp_kn F K kq dq = sp0 K ->
+       sp_kn F K kq (length kq - 1 - dq) = pol_twopi F K pi_ ->
+       (forall i : nat, (i < pol_nq F qPts)%nat -> pol_in_dom F K kq dq (nth i qPts (sp0 K))) ->
+       (forall j : nat, (j < pol_nr F rPts)%nat -> pol_in_dom F K kr (S dr') (nth j rPts (sp0 K))) ->
+       pol_quad_coeffs F K kq dq kr (S dr') omega cphi ->
+       forall fv : nat -> nat -> F,
+       (forall i j : nat,
+        (i < pol_nq F qPts)%nat ->
+        (j < pol_nr F rPts)%nat ->
+        pol_scalar F (pol_nu_ev F K) pol
+          (pol_modv F K (pol_modv F K (spsub K (nth i qPts (sp0 K)) (spmul K omega (spdiv K dt B0))) (pol_twopi F K pi_)) (pol_twopi F K pi_))
+          (nth j rPts (sp0 K)) 0 0 = SpOk (fv i j)) ->
+       pol_step_expl F K (pol_nu_ev F K) feq pi_ dt v B0 nul rPts qPts {| ps_k1 := kq; ps_d1 := dq; ps_k2 := kr; ps_d2 := S dr'; ps_c := cphi |} pol =
+       SpOk (pol_rigid_result F K pi_ dt B0 rPts qPts omega fv).
+Proof. exact (@pol_rigid_expl_from_coeffs). Qed.
+Print Assumptions pol_rigid_rotation_expl_from_coeffs.
+
+(** the same for the implicit scheme: one sweep *)
+Theorem pol_rigid_rotation_impl_from_coeffs :
+  forall (F : Type) (K : sp_ops F),
+       sp_laws K ->
+       forall (feq : F -> F -> F) (pi_ dt v B0 : F) (nul : bool) (rPts qPts kq : list F) (dq : nat) (kr : list F) (dr' : nat) 
+         (cphi : list (list F)) (pol : pol_spl F) (omega : F),
+       sp_trunc_ok F K ->
+       speqb K B0 (sp0 K) = false ->
+       sp_lt K (sp0 K) pi_ ->
+       rPts <> [] ->
+       (forall j : nat,
+        (j < pol_nr F rPts)%nat ->
+        speqb K (nth j rPts (sp0 K)) (sp0 K) = false /\ pol_inside F K (hd (sp0 K) rPts) (last rPts (sp0 K)) (nth j rPts (sp0 K)) = true) ->
+       pol_space_ok F K kq dq ->
+       pol_space_ok F K kr (S dr') ->
+       (1 <= dq)%nat ->
+       (1 <= dr')%nat ->
+       sp_kn F K kq dq = sp0 K ->
+       sp_kn F K kq (length kq - 1 - dq) = pol_twopi F K pi_ ->
+       (forall i : nat, (i < pol_nq F qPts)%nat -> pol_in_dom F K kq dq (nth i qPts (sp0 K))) ->
+       (forall j : nat, (j < pol_nr F rPts)%nat -> pol_in_dom F K kr (S dr') (nth j rPts (sp0 K))) ->
+       pol_quad_coeffs F K kq dq kr (S dr') omega cphi ->
+       forall fv : nat -> nat -> F,
+       (forall i j : nat,
+        (i < pol_nq F qPts)%nat ->
+        (j < pol_nr F rPts)%nat ->
+        pol_scalar F (pol_nu_ev F K) pol
+          (pol_modv F K (pol_modv F K (spsub K (nth i qPts (sp0 K)) (spmul K omega (spdiv K dt B0))) (pol_twopi F K pi_)) (pol_twopi F K pi_))
+          (nth j rPts (sp0 K)) 0 0 = SpOk (fv i j)) ->
+       forall (tol : F) (fuel : nat),
+       sp_le K (sp0 K) tol ->
+       pol_step_impl F K (pol_nu_ev F K) feq pi_ dt v B0 nul rPts qPts {| ps_k1 := kq; ps_d1 := dq; ps_k2 := kr; ps_d2 := S dr'; ps_c := cphi |} pol
+         tol (S fuel) = PolRet (SpOk (pol_rigid_result F K pi_ dt B0 rPts qPts omega fv, 1%nat)).
+Proof. exact (@pol_rigid_impl_from_coeffs). Qed.
+Print Assumptions pol_rigid_rotation_impl_from_coeffs.
+
 (* ------------------------------------------------------------------------------------------ *)
 (** non-vacuity: the executed instance on small inputs (degree-1 spaces, pi := 3, one theta node 3/2,
     radial nodes 1 and 2).  Entries are (new f, (foot theta, foot r)) as (numerator, denominator). *)
@@ -507,6 +616,32 @@ Example c12_witness_out_of_fuel : polq_w_step 40 = PolOutOfFuel.
 Proof. vm_compute. reflexivity. Qed.
 
 Example c12_mod_negative : spq_show_res (polq_mod (spq_of (-7) 2) (polq_w_q 3)) = SpOk (5%Z, 2%positive).
+Proof. vm_compute. reflexivity. Qed.
+
+(** rigid rotation at the executed instance: theta degree 1 on [0,6] (pi := 3), r degree 2 on breaks 1,2,3;
+    the radial coefficients of x^2 are 1,2,6,9, so omega = 2; dt/B0 = 1/2: rotation by 1.  Feet theta = 3/2 - 1 and
+    0 - 1 mod 6, r unchanged; the implicit loop makes one sweep *)
+Definition c12_kr := map polq_w_q [1; 1; 1; 2; 3; 3; 3]%Z.
+Example c12_square_coeffs : map (fun j => spq_show (ip_mono_coeff Qc spq_ops c12_kr 2 2 j)) [0; 1; 2; 3]%nat
+  = [(1%Z, 1%positive); (2%Z, 1%positive); (6%Z, 1%positive); (9%Z, 1%positive)].
+Proof. vm_compute. reflexivity. Qed.
+Definition c12_qphi := PolSpl (map polq_w_q [-3; 0; 3; 6; 9]%Z) 1 c12_kr 2
+  [map polq_w_q [1; 2; 6; 9]%Z; map polq_w_q [1; 2; 6; 9]%Z; map polq_w_q [1; 2; 6; 9]%Z].
+Definition c12_qpol := PolSpl (map polq_w_q [-3; 0; 3; 6; 9]%Z) 1 c12_kr 2
+  [map polq_w_q [1; 2; 3; 4]%Z; map polq_w_q [5; 6; 7; 8]%Z; map polq_w_q [1; 2; 3; 4]%Z].
+Definition c12_rigid_expected :=
+  [[((5%Z, 3%positive), (1%Z, 2%positive), (1%Z, 1%positive)); ((19%Z, 6%positive), (1%Z, 2%positive), (2%Z, 1%positive));
+    ((14%Z, 3%positive), (1%Z, 2%positive), (3%Z, 1%positive))];
+   [((7%Z, 3%positive), (5%Z, 1%positive), (1%Z, 1%positive)); ((23%Z, 6%positive), (5%Z, 1%positive), (2%Z, 1%positive));
+    ((16%Z, 3%positive), (5%Z, 1%positive), (3%Z, 1%positive))]].
+Example c12_rigid_expl :
+  polq_show_expl (pol_step_expl Qc spq_ops (pol_nu_ev Qc spq_ops) (fun r _ => r) (polq_w_q 3) (spq_of 1 2) (polq_w_q 0) (polq_w_q 1) false
+                    (map polq_w_q [1; 2; 3]%Z) [spq_of 3 2; polq_w_q 0] c12_qphi c12_qpol) = SpOk c12_rigid_expected.
+Proof. vm_compute. reflexivity. Qed.
+Example c12_rigid_impl_one_sweep :
+  polq_show_impl (pol_step_impl Qc spq_ops (pol_nu_ev Qc spq_ops) (fun r _ => r) (polq_w_q 3) (spq_of 1 2) (polq_w_q 0) (polq_w_q 1) false
+                    (map polq_w_q [1; 2; 3]%Z) [spq_of 3 2; polq_w_q 0] c12_qphi c12_qpol (polq_w_q 0) 4)
+  = PolRet (SpOk (c12_rigid_expected, 1%nat)).
 Proof. vm_compute. reflexivity. Qed.
 
 (** the executed instance satisfies the laws used above *)
